@@ -20,12 +20,15 @@ from bobocep.cep.gen.timestamp import BoboGenTimestamp
 from bobocep.cep.phenom.phenom import BoboPhenomenon
 
 PROP = "C20"
-PROPERTY_FILES = ["Properties/C20.v"]
+PROPERTY_FILES = ["Properties/C20.v", "Properties/C20tree.v"]
 META = dict(
     level_text="Theorems (Coq, closed under the global context): for outcome lists of ANY length the sequential "
                "multi-action's flag is true iff every executed sub-action succeeded, its report is the outcomes of "
                "exactly the executed sub-actions in order (all of them without stop-on-fail, the prefix up to and "
-               "including the first failure with it), nothing runs after a failure with stop-on-fail; for each handler "
+               "including the first failure with it), nothing runs after a failure with stop-on-fail; the same for sub-actions that are "
+               "themselves multi-actions (Properties/C20tree.v: one reported entry - its own (success, data) - per executed "
+               "sub-action, none of the leaves of a sub-action after the first failure runs, leaves-only trees agree "
+               "with the flat model, inlining nested multi-actions refuted); for each handler "
                "kind, every queue bound and every sequence of handle / worker completion (any completion order) / "
                "get_handler_response, responses of accepted jobs = in-flight + queued + delivered as multisets, each "
                "response carries its own job's name, complex event, success and data, delivered is a permutation of "
@@ -43,7 +46,8 @@ META = dict(
                "theorems cover every completion order. Actions that raise are outside the property as stated (pool "
                "handlers then emit no response; counted informationally, never failing).",
     rule="multi: every success/failure vector for 1..L sub-actions x stop flag with distinct data, plus random long "
-         "vectors; blocking handler: every handle/get sequence up to length L (unbounded queue) and random ones with "
+         "vectors; multi-action TREES (sub-actions that are multi-actions again: all outcome vectors and policy pairs "
+         "of two nested shapes + random trees of depth <= 3) against Model/ActionTree.v and an independent reference; blocking handler: every handle/get sequence up to length L (unbounded queue) and random ones with "
          "queue bounds 1..3; thread pool: gated op sequences (harness picks which running job finishes) with bounds "
          "0..2, timed batches of 1..N jobs with distinct outcomes and durations on 1..8 workers; process pool: timed "
          "batches; forwarder on each handler. non-trivial = a failing sub-action is present (multi) / "
@@ -292,6 +296,101 @@ def enc_multi(ret, log):
     for o in data:
         out += [flag(o[0]), ival(o[1])] if isinstance(o, tuple) and len(o) == 2 else [BAD, BAD]
     return out + [len(log)] + [ival(i) for i in log]
+
+
+# multi-actions whose sub-actions are multi-actions again.  tree: ["leaf", ok, data] | ["multi", stop, [tree...]]
+def build_tree(t, log, counter):
+    if t[0] == "leaf":
+        i = counter[0]
+        counter[0] += 1
+        return RecAction("s%d" % i, i, (t[1], t[2]), log)
+    return BoboActionMultiSequential("m%d" % len(log), [build_tree(x, log, counter) for x in t[2]], t[1])
+
+
+def impl_tree(t):
+    log = []
+    ret = build_tree(t, log, [0]).execute(mk_event(1, 7, 17))
+    return ret, log
+
+
+def ref_tree(t, counter):
+    """the documented semantics, independent of the model: (success, data, leaves executed)"""
+    if t[0] == "leaf":
+        i = counter[0]
+        counter[0] += 1
+        return t[1], t[2], [i]
+    ok, data, log, stopped = True, [], [], False
+    for x in t[2]:
+        if stopped:
+            skip_leaves(x, counter)
+            continue
+        o, d, lg = ref_tree(x, counter)
+        data.append((o, d))
+        log += lg
+        if not o:
+            ok = False
+            stopped = bool(t[1])
+    return ok, data, log
+
+
+def skip_leaves(t, counter):
+    if t[0] == "leaf":
+        counter[0] += 1
+    else:
+        for x in t[2]:
+            skip_leaves(x, counter)
+
+
+def enc_rdata(d):
+    if isinstance(d, list):
+        out = [1, len(d)]
+        for o in d:
+            out += ([flag(o[0])] + enc_rdata(o[1])) if isinstance(o, tuple) and len(o) == 2 else [BAD, BAD]
+        return out
+    return [0, ival(d)]
+
+
+def enc_tree(ret, log):
+    ok, data = ret
+    return [flag(ok)] + enc_rdata(data) + [len(log)] + [ival(i) for i in log]
+
+
+def c_tree(t, counter):
+    if t[0] == "leaf":
+        i = counter[0]
+        counter[0] += 1
+        return "(ALeaf %d%%nat %s %s)" % (i, cbool(t[1]), zz(t[2]))
+    return "(AMulti %s %s)" % (cbool(t[1]), clist([c_tree(x, counter) for x in t[2]]))
+
+
+def oracle_tree(t, ret, log):
+    ok, data, lg = ref_tree(t, [0])
+    fails = []
+    if list(log) != lg:
+        fails.append(("multi-nested-executed-set", "executed leaves %s, documented %s" % (log, lg)))
+    if ret != (ok, data):
+        fails.append(("multi-nested-report", "returned %r, documented %r (one entry per executed sub-action, a nested "
+                                             "multi-action being ONE sub-action)" % (ret, (ok, data))))
+    return fails
+
+
+def rand_tree(rng, depth, top=True):
+    if not top and (depth == 0 or rng.random() < 0.55):
+        return ["leaf", rng.random() < 0.7, rng.randint(-9, 99)]
+    return ["multi", rng.random() < 0.5, [rand_tree(rng, depth - 1, False) for _ in range(rng.randint(1, 3))]]
+
+
+def tree_cases(rng, q):
+    out = []
+    # leaf, multi of two leaves, leaf: every outcome vector and policy pair; and two levels of nesting
+    for bits in itertools.product((True, False), repeat=4):
+        for so, si in itertools.product((True, False), repeat=2):
+            lv = [["leaf", b, 10 + i] for i, b in enumerate(bits)]
+            out.append(["multi", so, [lv[0], ["multi", si, [lv[1], lv[2]]], lv[3]]])
+            out.append(["multi", so, [["multi", si, [lv[0], ["multi", not si, [lv[1], lv[2]]]]], lv[3]]])
+    for _ in range(300 if q else 5000):
+        out.append(rand_tree(rng, 3))
+    return out
 
 
 def oracle_multi(stop, outs, ret, log):
@@ -840,6 +939,16 @@ def _run(ctx, res, rng, q):
         add_failures(res, oracle_multi(stop, outs, ret, log), case)
         mcases.append(("(%s, %s)" % (cbool(stop), c_outs(outs)), enc_multi(ret, log)))
         mmeta.append(case)
+    tcases, tmeta = [], []
+    for t in tree_cases(rng, q):
+        ret, log = impl_tree(t)
+        nested = any(x[0] == "multi" for x in t[2])
+        res.note_case(("multi-tree", repr(t)), nested and not ref_tree(t, [0])[0])
+        res.count("multi_tree_nested" if nested else "multi_tree_flat")
+        case = dict(kind="multi-tree", tree=t)
+        add_failures(res, oracle_tree(t, ret, log), case)
+        tcases.append((c_tree(t, [0]), enc_tree(ret, log)))
+        tmeta.append(case)
     # informational: the constructor refuses an empty list
     try:
         BoboActionMultiSequential("m", [], True)
@@ -957,6 +1066,7 @@ def _run(ctx, res, rng, q):
     total_ok = 0
     for tag, imports, func, ty, cases, meta in (
             ("C20m", "Model.Action", "run_C20_multi", MULTI_T, mcases, mmeta),
+            ("C20t", "Model.ActionTree", "run_C20_tree", "act", tcases, tmeta),
             ("C20h", "Model.Action", "run_C20_handler", HANDLER_T, hcases, hmeta),
             ("C20f", "Model.Action", "run_C20_fwd", FWD_T, fcases, fmeta)):
         mism, errs = common.coq_run_cases(tag, imports, func, ty, cases, shard=150)
@@ -1035,6 +1145,14 @@ def replay(obj):
         impl = enc_multi(ret, log)
         model, _ = common.coq_eval("C20", "Model.Action", "run_C20_multi (%s, %s)" % (cbool(stop), c_outs(outs)))
         fails = oracle_multi(stop, outs, ret, log)
+    elif kind == "multi-tree":
+        t = case["tree"]
+        ret, log = impl_tree(t)
+        print("multi-action tree:", t)
+        print("implementation: returned %r ; executed leaves %s" % (ret, log))
+        impl = enc_tree(ret, log)
+        model, _ = common.coq_eval("C20", "Model.ActionTree", "run_C20_tree %s" % c_tree(t, [0]))
+        fails = oracle_tree(t, ret, log)
     elif kind == "handler-ops":
         ops = _tup(case["ops"])
         impl, accepted, delivered, extra, _ = run_handler_ops(case["handler"], case["workers"], case["max_size"], ops)
